@@ -237,3 +237,13 @@ func (p *Program) WalkTypes(fn func(fileIdx int, where string, t *Type)) {
 
 // NormName is exported for the generated-code bed.
 func NormName(s string) string { return normName(s) }
+
+// walkType calls fn for t and every type nested in it.
+func walkType(t *Type, fn func(*Type)) {
+	if t == nil {
+		return
+	}
+	fn(t)
+	walkType(t.Key, fn)
+	walkType(t.Val, fn)
+}
